@@ -368,7 +368,7 @@ def run_check(prop_id: str, tier: str, *, base_seed: int | None = None, budget_s
         # ---- report ----------------------------------------------------------------
         rc = 0
         lines = []
-        replay_dir = os.path.join(VERIF, "replays", prop_id)
+        replay_dir = os.path.join(os.environ.get("TLSIM_REPLAY_DIR") or os.path.join(VERIF, "replays"), prop_id)
         known_hit = []
         if agg["selftest_mismatch"]:
             rc = 2
@@ -528,7 +528,8 @@ def replay_file(path: str, quiet: bool = False, out=sys.stdout):
 
 def _write_evidence(prop, prop_id, tier, base_seed, agg, viol_counts, violations, known_hit, minimised, wall, search_wall,
                     jobs, hashseeds, shim_ok, fresh_checked, rc):
-    os.makedirs(os.path.join(VERIF, "evidence"), exist_ok=True)
+    evdir = os.environ.get("TLSIM_EVIDENCE_DIR") or os.path.join(VERIF, "evidence")
+    os.makedirs(evdir, exist_ok=True)
     runs_per_hour = int(agg["runs"] / search_wall * 3600) if search_wall > 0 else 0
     span = None
     if agg["clock_min"] is not None:
@@ -582,5 +583,5 @@ def _write_evidence(prop, prop_id, tier, base_seed, agg, viol_counts, violations
         "wall_s": round(wall, 2),
         "violations": int(sum(1 for k in violations if finding_for(load_findings(), prop_id, k[0], k[1]) is None)) if rc == 1 else 0,
     }
-    with open(os.path.join(VERIF, "evidence", f"{prop_id}.json"), "w") as f:
+    with open(os.path.join(evdir, f"{prop_id}.json"), "w") as f:
         json.dump(doc, f, indent=1, sort_keys=True)
